@@ -15,6 +15,9 @@ import (
 	"strings"
 	"time"
 
+	"github.com/cenkalti/backoff/v4"
+
+	"github.com/restic/restic/internal/backend"
 	"github.com/restic/restic/internal/data"
 	"github.com/restic/restic/internal/global"
 	"github.com/restic/restic/internal/restic"
@@ -324,6 +327,9 @@ func engineC25(c *vctx) error {
 			if err != nil {
 				return err
 			}
+			if len(before) == 0 {
+				break // every snapshot is gone (only possible when the code under test loses them)
+			}
 			names := &c25Names{m: map[restic.ID]uint64{}}
 			for i, b := range before {
 				names.m[b.id] = uint64(i + 1)
@@ -472,7 +478,25 @@ func engineC25(c *vctx) error {
 					args = append(args, before[0].id.String())
 				}
 			}
+			// fault family: the backend refuses the k-th Save of a snapshot file (everything else proceeds)
+			faulty := rng.chance(30)
+			nfail := 0
+			if faulty {
+				failAt, seen := rng.intn(3), 0
+				both := rng.chance(25)
+				e.rec.OnOp = func(o *vop) error {
+					if o.Op == "Save" && o.Type == backend.SnapshotFile {
+						seen++
+						if seen-1 == failAt || (both && seen-1 == failAt+1) {
+							nfail++
+							return backoff.Permanent(fmt.Errorf("verif: save refused"))
+						}
+					}
+					return nil
+				}
+			}
 			_, _, err = e.cli(args...)
+			e.rec.OnOp = nil
 			after, lerr := c25List(ctx, e)
 			if lerr != nil {
 				return lerr
@@ -527,6 +551,15 @@ func engineC25(c *vctx) error {
 				c.Hist("repo-with-duplicate-tags")
 			}
 			size := len(before)*5 + len(args)
+			if faulty {
+				if nfail > 0 {
+					c.Hist("save-refused")
+				}
+				c.Case(kind+"-savefault", nsel > 0 && err == nil && nfail > 0, size,
+					fmt.Sprintf("KRunF %s %s %s %s %s %s %s %s", coqList(snapTerms), coqList(selT), c25Lists(setL), c25Lists(addL), c25Lists(remL), coqNat(nfail), coqNat(extra), obs),
+					fmt.Sprintf("repo=%s cmd=%q selected=%v saves-refused=%d -> %s extra=%d", c25Human(before), args[1:], sel, nfail, hs, extra))
+				continue
+			}
 			c.Case(kind, nsel > 0 && err == nil, size,
 				fmt.Sprintf("KRun %s %s %s %s %s %s %s", coqList(snapTerms), coqList(selT), c25Lists(setL), c25Lists(addL), c25Lists(remL), coqNat(extra), obs),
 				fmt.Sprintf("repo=%s cmd=%q selected=%v -> %s extra=%d", c25Human(before), args[1:], sel, hs, extra))
